@@ -15,6 +15,7 @@ def parse_case_line(line):
     secs = [s.strip() for s in line.split(";")]
     params = dict(kv.split("=") for kv in secs[0].split()[1:])
     if secs[0].startswith("status"): return mk_status(params["sched"], int(params["n"]))
+    if secs[0].startswith("latch"): return mk_latch(int(params["M"]), int(params["n"]), int(params["tclose"]))
     items = [(int(t.split(":")[1]), t.split(":")[2] == "1") for t in secs[1].split()]
     return mk_case(params["kind"], params["chan"], int(params["L"]), int(params["tau"]), int(params["tclose"]), items, params.get("instr", "metrics"))
 
@@ -34,6 +35,9 @@ def gen_case(rng, maxL=4):
 SCHEDS = {"never": "[SStart; SFinish]", "before": "[SSched; SStart; SFinish]", "during": "[SStart; SSched; SFinish]", "endlog": "[SStart; SFinish; SSched]"}
 def mk_status(sched, n):
     return Case("status n=%d sched=%s ; S" % (n, sched), "status_trace %s %d" % (SCHEDS[sched], n), dict(profile="status", sched=sched, n=n))
+
+def mk_latch(M, n, tclose):
+    return Case("latch M=%d n=%d tclose=%d ; S" % (M, n, tclose), "latch_trace %d %d" % (M, n), dict(profile="latch", M=M, n=n))
 
 def fields(recs):
     r = {x[2]: (x[3], x[4]) for x in recs if x[0] == "ret"}
@@ -89,6 +93,13 @@ def oracle_c12(case, recs):
             if fin != exp_failed: hits.append((None, "the close callback ran when %d of the %d failed items' error callbacks had completed (%d started): not after the last item was fully processed" % (fin, exp_failed, started)))
         if status not in (3, 4): hits.append((None, "the close callback found the executor in status %d (not an ended one)" % status))
         if status == 3: hits.append((None, "the close callback found 'programmatically ended' although the executor was never scheduled to finish"))
+        return hits
+    if m["profile"] == "latch":
+        if 79 not in r: return [(None, "no result")]
+        cbs, at_cb = r[79]; fin, M = r[80]
+        if cbs != 1: hits.append((None, "the Uni's close callback ran %d times (MAX_STREAMS %d)" % (cbs, M)))
+        if at_cb != m["n"]: hits.append((None, "the Uni's close callback ran when %d of %d events had been processed" % (at_cb, m["n"])))
+        if fin != M: hits.append((None, "%d of %d executors finished" % (fin, M)))
         return hits
     if 76 not in r: return [(None, "no result")]
     status, _ = r[76]; cbs, processed = r[77]
